@@ -7,12 +7,10 @@ use crate::obj::{self, Hdr};
 use crate::simrt::{self, Observer, SchedStats};
 use crate::spec::*;
 use crate::vm::*;
-use mmtk::scheduler::GCWorker;
 use mmtk::util::alloc::AllocationError;
 use mmtk::util::verif::introspect::{self, GcInfo};
 use mmtk::util::verif::rt::ev;
 use mmtk::util::{Address, ObjectReference};
-use mmtk::vm::{ObjectTracer, ObjectTracerContext};
 use serde::Serialize;
 use std::collections::{BTreeMap, BTreeSet, VecDeque};
 use std::sync::atomic::Ordering;
@@ -29,11 +27,19 @@ pub struct SObj {
     pub fields: Vec<u64>,
     /// raw ObjectReference
     pub addr: usize,
-    pub pinned: bool,
+    pub pin_ops: u32,
+    pub pins_true: u32,
+    pub unpins_true: u32,
     pub alloc_pause: u64,
     pub owner: usize,
     /// Name of the space it was allocated in.
     pub space: &'static str,
+}
+
+impl SObj {
+    pub fn pinned(&self) -> bool {
+        self.pins_true > self.unpins_true
+    }
 }
 
 #[derive(Clone, Debug, Default)]
@@ -49,6 +55,8 @@ pub struct PauseRec {
     pub scanned_ids: BTreeMap<u64, u32>,
     pub copied_ids: BTreeMap<u64, u32>,
     pub weak_rounds: u32,
+    pub weak_traced_rounds: u32,
+    pub weak_done: bool,
     pub forward_calls: u32,
     pub enqueued: Vec<u64>,
     pub cleared: Vec<u64>,
@@ -103,6 +111,14 @@ pub struct World {
     pub fin_popped: BTreeMap<u64, u32>,
     /// ids that the model says became unreachable while registered: -> pending pops
     pub fin_ready: BTreeMap<u64, u32>,
+    /// registered finalizable ids that were seen unreachable at the end of some pause
+    pub fin_unreachable_seen: BTreeSet<u64>,
+    pub probe_requested: bool,
+    pub block_counts: [u64; MAX_MUT],
+    pub fork_epoch: u64,
+    /// per simulated thread: alloc_slow_inline iterations of the allocation in progress
+    pub alloc_slow_iters: BTreeMap<usize, u64>,
+    pub used_after_gc: Vec<(u64, usize, usize)>,
     /// ephemeron table: (key id, value id), with their current raw addresses
     pub ephemerons: Vec<Ephemeron>,
     /// SATB: objects that must survive the final mark pause (ids)
@@ -132,6 +148,9 @@ pub struct Ephemeron {
     pub key_addr: usize,
     pub value_addr: usize,
     pub value_traced_in_pause: u64,
+    /// key address returned by the tracer in forward_weak_refs (0 = none)
+    pub key_fwd: usize,
+    pub settled_in_pause: u64,
 }
 
 /// Scheduler-event history (C14/C15).
@@ -489,13 +508,13 @@ pub fn on_copy_end(
             );
         }
         if let Some(o) = w.objs.get(&h.id) {
-            if o.pinned || matches!(o.sem, SEM_IMMORTAL | SEM_LOS | SEM_NONMOVING) {
+            if o.pinned() || matches!(o.sem, SEM_IMMORTAL | SEM_LOS | SEM_NONMOVING) {
                 violation(
                     "C04",
                     "moved-unmovable",
                     format!(
                         "object id {} (sem {}, pinned {}) was copied {:?} -> {:?}",
-                        h.id, o.sem, o.pinned, from, to
+                        h.id, o.sem, o.pinned(), from, to
                     ),
                 );
             }
@@ -515,7 +534,7 @@ pub fn on_copy_to(from: ObjectReference, to: ObjectReference, h: &Hdr) {
         w.pause.copies += 1;
         if from != to {
             if let Some(o) = w.objs.get(&h.id) {
-                if o.pinned || matches!(o.sem, SEM_IMMORTAL | SEM_LOS | SEM_NONMOVING) {
+                if o.pinned() || matches!(o.sem, SEM_IMMORTAL | SEM_LOS | SEM_NONMOVING) {
                     violation(
                         "C04",
                         "moved-unmovable",
@@ -596,6 +615,7 @@ pub fn on_block_for_gc(mid: usize) {
     let step = simrt::step();
     with_world(|w| {
         w.blocked_for_gc[mid] = true;
+        w.block_counts[mid] += 1;
         w.gc_requests.insert(mid, (step, w.pauses_done));
         w.count("block_for_gc");
     });
@@ -672,6 +692,7 @@ pub fn on_injected_run(seq: u64) {
     with_world(|w| match w.injected_pending.get_mut(&seq) {
         Some(c) if *c == 0 => {
             *c = 1;
+            crate::ops2::INJECTED_RUN.fetch_add(1, Ordering::SeqCst);
         }
         Some(c) => {
             let n = *c + 1;
@@ -698,536 +719,12 @@ pub fn new_injected(_parent: u64, _i: u8) -> u64 {
     })
 }
 
-// ---------------------------------------------------------------------------------------------
-// VM-side weak processing (ephemerons) — C13
-// ---------------------------------------------------------------------------------------------
-
-pub fn process_weak_refs(
-    worker: &mut GCWorker<SimVM>,
-    tracer_context: impl ObjectTracerContext<SimVM>,
-) -> bool {
-    // Snapshot what we need, then call into mmtk without holding the world.
-    let (round, eph, strong): (u32, Vec<Ephemeron>, Vec<(u64, usize)>) = with_world(|w| {
-        if !(w.pause.active && w.pause.stopped) {
-            violation(
-                "C13",
-                "weak-outside-pause",
-                "process_weak_refs called while mutators are not stopped".into(),
-            );
-        }
-        w.pause.weak_rounds += 1;
-        let info = introspect::gc_info(mmtk());
-        // closure-complete oracle: model-strongly-reachable ids must already be reachable
-        let mut strong = Vec::new();
-        if w.pause.weak_rounds == 1 {
-            let reach = w.reachable();
-            let full = info.nursery != Some(true);
-            for id in reach.iter() {
-                if let Some(o) = w.objs.get(id) {
-                    // Nursery pauses only trace the nursery-collected spaces (default space and
-                    // LOS); immortal / non-moving objects are treated as old and never traced,
-                    // so `is_reachable` is not meaningful for them there.
-                    if full
-                        || (o.alloc_pause >= w.pauses_done
-                            && matches!(o.sem, SEM_DEFAULT | SEM_LOS))
-                    {
-                        strong.push((*id, o.addr));
-                    }
-                }
-            }
-        }
-        (w.pause.weak_rounds, w.ephemerons.clone(), strong)
-    });
-    for (id, addr) in strong {
-        if let Some(o) = obj::raw_to_ref(addr) {
-            // A from-space copy answers "not reachable"; the documented protocol is to ask for the
-            // forwarded object as well.
-            if !o.is_reachable() && o.get_forwarded_object().is_none() {
-                violation(
-                    "C13",
-                    "closure-incomplete",
-                    format!(
-                        "process_weak_refs round 1: strongly reachable object id {} at {:#x} is not yet reachable",
-                        id, addr
-                    ),
-                );
-            }
-        }
-    }
-    if eph.is_empty() {
-        return false;
-    }
-    // Ephemeron semantics: value is kept alive iff key is reachable.
-    let mut traced: Vec<(usize, usize)> = Vec::new(); // (index, new value addr)
-    let cur_pause = with_world(|w| w.pause.n);
-    tracer_context.with_tracer(worker, |tracer| {
-        for (i, e) in eph.iter().enumerate() {
-            if e.value_traced_in_pause == cur_pause {
-                continue;
-            }
-            let key = match obj::raw_to_ref(e.key_addr) {
-                Some(k) => k,
-                None => continue,
-            };
-            if key.is_reachable() {
-                if let Some(v) = obj::raw_to_ref(e.value_addr) {
-                    let nv = tracer.trace_object(v);
-                    traced.push((i, nv.to_raw_address().as_usize()));
-                }
-            }
-        }
-    });
-    let any = !traced.is_empty();
-    with_world(|w| {
-        for (i, nv) in traced {
-            w.ephemerons[i].value_addr = nv;
-            w.ephemerons[i].value_traced_in_pause = cur_pause;
-        }
-        if any {
-            w.count("ephemeron_round_traced");
-        }
-        let _ = round;
-    });
-    any
-}
-
-pub fn forward_weak_refs(
-    _worker: &mut GCWorker<SimVM>,
-    _tracer_context: impl ObjectTracerContext<SimVM>,
-) {
-    with_world(|w| {
-        w.pause.forward_calls += 1;
-        if !w.plan.needs_forward {
-            violation(
-                "C13",
-                "forward-unexpected",
-                "forward_weak_refs called for a plan that does not need forwarding".into(),
-            );
-        }
-    });
-}
-
-/// After the pause: update ephemeron addresses (keys may have moved), drop dead ones.
-fn settle_ephemerons(w: &mut World) {
-    let cur = w.pause.n;
-    let mut keep = Vec::new();
-    for e in w.ephemerons.clone() {
-        let key = obj::raw_to_ref(e.key_addr).unwrap();
-        // key liveness/forwarding after GC is taken from the shadow: if the key id is still in
-        // the model (reachable) its address was refreshed by the heap walk.
-        if let Some(k) = w.objs.get(&e.key) {
-            let _ = key;
-            let mut ne = e.clone();
-            ne.key_addr = k.addr;
-            if let Some(v) = w.objs.get(&e.value) {
-                ne.value_addr = v.addr;
-            }
-            let _ = cur;
-            keep.push(ne);
-        }
-    }
-    w.ephemerons = keep;
-}
-
-// ---------------------------------------------------------------------------------------------
-// Resume: the post-pause oracle
-// ---------------------------------------------------------------------------------------------
-
-struct WalkItem {
-    slot: usize,
-    expect: u64,
-    from: u64,
-}
-
-fn read_slot(slot: usize) -> usize {
-    unsafe { Address::from_usize(slot).load::<usize>() }
-}
-
-fn is_mapped(raw: usize) -> bool {
-    mmtk::memory_manager::is_mapped_address(unsafe { Address::from_usize(raw) })
-}
-
-/// Walk the real heap from the real roots in lock-step with the shadow graph.
-/// Returns id -> current raw reference.
-pub fn heap_walk(w: &mut World, when: &str) -> BTreeMap<u64, usize> {
-    let mut found: BTreeMap<u64, usize> = BTreeMap::new();
-    let mut by_addr: BTreeMap<usize, u64> = BTreeMap::new();
-    let mut queue: Vec<WalkItem> = Vec::new();
-    for m in 0..w.nmut {
-        for i in 0..NROOTS {
-            queue.push(WalkItem {
-                slot: Address::from_ref(&ROOTS_LOCAL[m][i]).as_usize(),
-                expect: w.lroots[m][i],
-                from: 0,
-            });
-        }
-    }
-    for i in 0..NGLOBAL {
-        queue.push(WalkItem {
-            slot: Address::from_ref(&ROOTS_GLOBAL[i]).as_usize(),
-            expect: w.groots[i],
-            from: 0,
-        });
-    }
-    let mut bytes_checked = 0u64;
-    while let Some(it) = queue.pop() {
-        let raw = read_slot(it.slot);
-        if it.expect == 0 {
-            if raw != 0 {
-                violation(
-                    "C01",
-                    "null-slot-changed",
-                    format!("{}: slot {:#x} of object {} should be null but holds {:#x}", when, it.slot, it.from, raw),
-                );
-            }
-            continue;
-        }
-        if raw == 0 {
-            violation(
-                "C01",
-                "slot-nulled",
-                format!("{}: slot {:#x} of object {} should refer to object {} but is null", when, it.slot, it.from, it.expect),
-            );
-        }
-        if raw % 8 != 0 || !is_mapped(raw) {
-            violation(
-                "C01",
-                "slot-unmapped",
-                format!("{}: slot {:#x} of object {} holds {:#x} (expected object {}), not a mapped reference", when, it.slot, it.from, raw, it.expect),
-            );
-        }
-        if let Some(prev) = found.get(&it.expect) {
-            if *prev != raw {
-                violation(
-                    "C01",
-                    "identity-split",
-                    format!("{}: object {} is referred to at both {:#x} and {:#x}", when, it.expect, prev, raw),
-                );
-            }
-            continue;
-        }
-        let start = unsafe { Address::from_usize(raw - obj::REF_OFFSET) };
-        let h = obj::read_hdr(start);
-        let so = match w.objs.get(&it.expect) {
-            Some(o) => o.clone(),
-            None => harness_error(format!("shadow lost object {}", it.expect)),
-        };
-        if h.id != it.expect {
-            violation(
-                "C01",
-                "wrong-referent",
-                format!(
-                    "{}: slot {:#x} of object {} holds {:#x} whose header says id {} (tomb {:#x}), expected object {}",
-                    when, it.slot, it.from, raw, h.id, h.tomb, it.expect
-                ),
-            );
-        }
-        if h.tomb != 0 {
-            violation(
-                "C01",
-                "stale-copy",
-                format!("{}: slot {:#x} of object {} refers to the stale from-space copy {:#x} of object {}", when, it.slot, it.from, raw, it.expect),
-            );
-        }
-        if h.size as usize != so.size || h.nrefs as usize != so.nrefs || h.kind != so.kind || h.flags != so.flags {
-            violation(
-                "C01",
-                "header-corrupt",
-                format!("{}: object {} at {:#x} header {:?} differs from model (size {}, nrefs {}, kind {})", when, it.expect, raw, h, so.size, so.nrefs, so.kind),
-            );
-        }
-        if let Some(bad) = obj::check_payload(start, &h) {
-            violation(
-                "C01",
-                "payload-corrupt",
-                format!("{}: object {} at {:#x}: payload byte {} corrupted", when, it.expect, raw, bad),
-            );
-        }
-        bytes_checked += h.size as u64;
-        if let Some(other) = by_addr.insert(raw, it.expect) {
-            violation(
-                "C01",
-                "objects-merged",
-                format!("{}: objects {} and {} both at {:#x}", when, other, it.expect, raw),
-            );
-        }
-        found.insert(it.expect, raw);
-        let first = if so.kind != obj::KIND_NORMAL { 1 } else { 0 };
-        for i in first..so.nrefs {
-            queue.push(WalkItem {
-                slot: obj::slot_addr(start, i).as_usize(),
-                expect: so.fields[i],
-                from: it.expect,
-            });
-        }
-    }
-    w.count_n("walk_bytes", bytes_checked);
-    w.count_n("walk_objects", found.len() as u64);
-    found
-}
-
-/// Check that no two found objects overlap, and return the sorted interval list.
-fn check_disjoint(w: &World, found: &BTreeMap<u64, usize>, when: &str) -> Vec<(usize, usize, u64)> {
-    let mut iv: Vec<(usize, usize, u64)> = found
-        .iter()
-        .map(|(id, raw)| {
-            let s = raw - obj::REF_OFFSET;
-            (s, s + w.objs[id].size, *id)
-        })
-        .collect();
-    iv.sort();
-    for p in iv.windows(2) {
-        if p[0].1 > p[1].0 {
-            violation(
-                "C01",
-                "objects-overlap",
-                format!("{}: object {} [{:#x},{:#x}) overlaps object {} [{:#x},{:#x})", when, p[0].2, p[0].0, p[0].1, p[1].2, p[1].0, p[1].1),
-            );
-        }
-    }
-    iv
-}
-
-pub fn on_resume() {
-    let info = introspect::gc_info(mmtk());
-    let step = simrt::step();
-    with_world(|w| {
-        if !w.pause.active || !w.pause.stopped {
-            violation(
-                "C11",
-                "resume-without-stop",
-                format!("resume_mutators called but no stop is in effect (active {} stopped {})", w.pause.active, w.pause.stopped),
-            );
-        }
-        w.last_gc_info = info;
-        w.note(format!("resume (pause {}) info {:?} scans {} copies {}", w.pause.n, info, w.pause.scans, w.pause.copies));
-        // -- C11: every active mutator's roots scanned exactly once in root-scanning pauses
-        let scans_roots = info.pause != 3 || w.pause.roots_scanned.iter().any(|c| *c > 0);
-        if scans_roots && w.plan.collects {
-            for m in 0..MAX_MUT {
-                if MUT_ACTIVE[m].load(Ordering::SeqCst) && w.pause.roots_scanned[m] != w.plan.root_rounds {
-                    violation(
-                        "C11",
-                        "roots-not-scanned",
-                        format!("pause {}: mutator {} roots scanned {} times", w.pause.n, m, w.pause.roots_scanned[m]),
-                    );
-                }
-            }
-        }
-        // -- C15/C11: all STW buckets empty and closed; no live STW packet
-        check_buckets_at_resume(w);
-        // -- C13: forwarding pass
-        if info.pause != 2 {
-            let want = if w.plan.needs_forward { 1 } else { 0 };
-            if w.pause.weak_rounds > 0 && w.pause.forward_calls != want {
-                violation(
-                    "C13",
-                    "forward-count",
-                    format!("pause {}: forward_weak_refs called {} times, expected {}", w.pause.n, w.pause.forward_calls, want),
-                );
-            }
-            if w.pause.weak_rounds == 0 && w.plan.collects {
-                violation(
-                    "C13",
-                    "weak-not-called",
-                    format!("pause {}: process_weak_refs was never called", w.pause.n),
-                );
-            }
-        }
-        if w.pause.weak_rounds > 1 {
-            w.count("weak_multi_round_pauses");
-        }
-        // -- C18 (mark exactly once): with unique enqueuing, scan_object at most once per object per pause
-        if cfg!(not(feature = "header_meta")) && !cfg!(feature = "var_c") {
-            for (id, n) in w.pause.scanned_ids.iter() {
-                // MarkCompact / Compressor trace the heap twice (mark, then forward references).
-                if *n > w.plan.root_rounds {
-                    violation(
-                        "C18",
-                        "scanned-twice",
-                        format!("pause {}: object {} scanned {} times (UNIQUE_OBJECT_ENQUEUING)", w.pause.n, id, n),
-                    );
-                }
-            }
-        }
-        // -- C01/C04: heap walk
-        let when = format!("after pause {}", w.pause.n);
-        let found = heap_walk(w, &when);
-        let iv = check_disjoint(w, &found, &when);
-        let mut moved = 0u64;
-        for (id, raw) in found.iter() {
-            let o = w.objs.get_mut(id).unwrap();
-            if o.addr != *raw {
-                moved += 1;
-                if o.pinned || matches!(o.sem, SEM_IMMORTAL | SEM_LOS | SEM_NONMOVING) {
-                    violation(
-                        "C04",
-                        "unmovable-moved",
-                        format!("object {} (sem {}, pinned {}) moved {:#x} -> {:#x} in pause {}", id, o.sem, o.pinned, o.addr, raw, w.pause.n),
-                    );
-                }
-                if !w.plan.moves {
-                    violation(
-                        "C04",
-                        "moved-in-nonmoving-plan",
-                        format!("object {} moved {:#x} -> {:#x} under non-moving plan {}", id, o.addr, raw, w.plan.name),
-                    );
-                }
-                o.addr = *raw;
-            }
-        }
-        if moved > 0 {
-            w.count_n("objects_moved", moved);
-        }
-        // vo bit of every found object (variants with vo_bit)
-        #[cfg(any(feature = "var_a", feature = "var_b"))]
-        for (id, raw) in found.iter() {
-            let a = unsafe { Address::from_usize(*raw) };
-            if mmtk::memory_manager::is_mmtk_object(a).is_none() {
-                violation(
-                    "C01",
-                    "live-object-not-valid",
-                    format!("after pause {}: live object {} at {:#x} is not an MMTk object (VO bit clear)", w.pause.n, id, raw),
-                );
-            }
-        }
-        // -- retention sets
-        let reclaiming = info.pause != 2; // InitialMark reclaims nothing
-        if reclaiming {
-            w.reclaiming_pauses += 1;
-        }
-        settle_after_pause(w, &found, iv, info);
-        if info.nursery == Some(true) {
-            w.count("pauses_nursery");
-        } else if info.nursery == Some(false) {
-            w.count("pauses_full_gen");
-        }
-        match info.pause {
-            1 => w.count("pauses_conc_full"),
-            2 => w.count("pauses_initial_mark"),
-            3 => w.count("pauses_final_mark"),
-            _ => {}
-        }
-        if info.emergency {
-            w.count("pauses_emergency");
-        }
-        w.pauses_done += 1;
-        w.pause.active = false;
-        w.pause.stopped = false;
-        let _ = step;
-    });
-}
-
-/// Decide what stays in the model / occupied set after a pause.
-fn settle_after_pause(w: &mut World, found: &BTreeMap<u64, usize>, iv: Vec<(usize, usize, u64)>, info: GcInfo) {
-    // InitialMark: snapshot; nothing reclaimed. Objects reachable now (S) must survive FinalMark.
-    if info.pause == 2 {
-        w.satb_active = true;
-        w.satb_keep = found.keys().cloned().collect();
-        w.count("satb_snapshots");
-        return;
-    }
-    let was_satb = w.satb_active;
-    if info.pause == 3 {
-        // FinalMark: S ∪ N must be intact (C12), whether or not still reachable.
-        let keep: Vec<u64> = w.satb_keep.iter().cloned().collect();
-        for id in keep {
-            if found.contains_key(&id) {
-                continue;
-            }
-            if let Some(o) = w.objs.get(&id) {
-                check_intact(o, "C12", "satb-object-lost", &format!("after final mark pause {}", w.pause.n));
-            }
-        }
-        w.count_n("satb_checked", w.satb_keep.len() as u64);
-        w.satb_active = false;
-        w.satb_keep.clear();
-    }
-    // Objects in never-collected spaces that are unreachable stay (C04)
-    let ids: Vec<u64> = w.objs.keys().cloned().collect();
-    let mut retained: BTreeSet<u64> = BTreeSet::new();
-    // weak machinery keeps referents / finalizables / ephemeron keys+values in the model
-    let mut seeds: Vec<u64> = Vec::new();
-    for (rid, r) in w.refs.iter() {
-        if found.contains_key(rid) && r.referent != 0 && !r.cleared {
-            seeds.push(r.referent);
-        }
-    }
-    for (id, n) in w.fin_registered.iter() {
-        if *n > 0 {
-            seeds.push(*id);
-        }
-    }
-    for (id, n) in w.fin_ready.iter() {
-        if *n > 0 {
-            seeds.push(*id);
-        }
-    }
-    for e in w.ephemerons.iter() {
-        seeds.push(e.key);
-        seeds.push(e.value);
-    }
-    w.close(&mut retained, seeds);
-    for id in ids {
-        if found.contains_key(&id) {
-            continue;
-        }
-        let o = &w.objs[&id];
-        let never_collected = o.sem == SEM_IMMORTAL || !w.plan.collects;
-        if never_collected {
-            w.immortal_dead.insert(id);
-            continue;
-        }
-        if retained.contains(&id) {
-            continue;
-        }
-        if was_satb && info.pause != 3 {
-            continue;
-        }
-        w.objs.remove(&id);
-    }
-    // C04: immortal objects never die: header and payload intact, and they stay occupied
-    let dead: Vec<u64> = w.immortal_dead.iter().cloned().collect();
-    for id in dead.iter() {
-        let o = &w.objs[id];
-        check_intact(o, "C04", "immortal-object-lost", &format!("after pause {}", w.pause.n));
-    }
-    // Rebuild the occupied set: live objects at their (new) addresses + immortal dead ones.
-    w.occupied.clear();
-    for (s, e, id) in iv {
-        w.occupied.insert(s, (e, id));
-    }
-    for id in dead {
-        let o = &w.objs[&id];
-        let s = o.addr - obj::REF_OFFSET;
-        w.occupied.insert(s, (s + o.size, id));
-    }
-    settle_ephemerons(w);
-}
-
-fn check_intact(o: &SObj, prop: &str, class: &str, when: &str) {
-    if !is_mapped(o.addr) {
-        violation(prop, class, format!("{}: object {} at {:#x} is no longer mapped", when, o.id, o.addr));
-    }
-    let start = unsafe { Address::from_usize(o.addr - obj::REF_OFFSET) };
-    let h = obj::read_hdr(start);
-    if h.id != o.id || h.size as usize != o.size || h.tomb != 0 {
-        violation(prop, class, format!("{}: object {} at {:#x} was overwritten (header now {:?})", when, o.id, o.addr, h));
-    }
-    if let Some(b) = obj::check_payload(start, &h) {
-        violation(prop, class, format!("{}: object {} at {:#x}: payload byte {} corrupted", when, o.id, o.addr, b));
-    }
-    #[cfg(any(feature = "var_a", feature = "var_b"))]
-    if mmtk::memory_manager::is_mmtk_object(unsafe { Address::from_usize(o.addr) }).is_none() {
-        violation(prop, class, format!("{}: object {} at {:#x} lost its valid-object bit", when, o.id, o.addr));
-    }
-}
 
 // ---------------------------------------------------------------------------------------------
 // Scheduler events (C14 / C15)
 // ---------------------------------------------------------------------------------------------
 
-fn check_buckets_at_resume(w: &mut World) {
+pub fn check_buckets_at_resume(w: &mut World) {
     let b = introspect::buckets(mmtk());
     for bi in b.iter() {
         if bi.stw && (!bi.empty || bi.open) {
